@@ -336,6 +336,19 @@ pub struct Screen;
 #[cfg(not(all(feature = "likely", unic_locale_verif)))]
 impl Screen { pub fn new() -> Self { Screen } pub fn deviates(&self, _: &[u8], _: &[u8], _: &[u8]) -> bool { false } }
 
+/// `seq_*` cases: a call on an unrelated language first (whatever a previous case left behind - a memo keyed by the
+/// language, say - is displaced), then the first input, then the second; the answer is the second one's.
+pub fn seq_direction(x: &[u8], y: &[u8]) -> String {
+    let flush: &[u8] = if x.starts_with(b"ar") { b"he-IL" } else { b"ar-EG" };
+    let _ = direction(flush);
+    let _ = direction(x);
+    direction(y)
+}
+pub fn seq_likely(a: &[&[u8]; 6], max: bool) -> String {
+    let f: &[u8] = if a[0] == b"ar" { b"he" } else { b"ar" };
+    if max { let _ = maximize(f, b"", b""); let _ = maximize(a[0], a[1], a[2]); maximize(a[3], a[4], a[5]) }
+    else { let _ = minimize(f, b"", b"EG"); let _ = minimize(a[0], a[1], a[2]); minimize(a[3], a[4], a[5]) }
+}
 fn locale_dirs() -> Vec<String> {
     let mut v = vec![];
     if let Ok(rd) = std::fs::read_dir("/repo/unic-langid-impl/data/cldr-misc-full/main") {
@@ -505,8 +518,8 @@ pub fn run(out: &mut Out, tier: &str, rng: &mut Rng) {
                 for x in g.iter() { for y in g.iter() {
                     if x == y { continue; }
                     let args: [&[u8]; 6] = [x.0.as_bytes(), x.1.as_bytes(), x.2.as_bytes(), y.0.as_bytes(), y.1.as_bytes(), y.2.as_bytes()];
-                    out.case("seq_maximize", &args, || { let _ = maximize(args[0], args[1], args[2]); maximize(args[3], args[4], args[5]) });
-                    out.case("seq_minimize", &args, || { let _ = minimize(args[0], args[1], args[2]); minimize(args[3], args[4], args[5]) });
+                    out.case("seq_maximize", &args, || seq_likely(&args, true));
+                    out.case("seq_minimize", &args, || seq_likely(&args, false));
                 } }
             }
         }
@@ -599,18 +612,33 @@ pub fn run(out: &mut Out, tier: &str, rng: &mut Rng) {
         let seq_op = format!("seq_{}", DIR_OP);
         let prods = lang_products();
         for l in ["ar", "az", "he", "fa", "ff", "ha", "ks", "ku", "pa", "sd", "ug", "ur", "uz", "yi", "ckb", "mn", "ms", "kk", "ky", "tg", "tk", "en", "zh", "sr"] {
+            // inducers: every identifier of the language that the tables relate to a script or region; victims: the
+            // layout locales of the language (their direction is fixed by CLDR, so a stale answer is a failing input)
             let mut ids: Vec<String> = vec![l.to_string()];
-            for (a, b, c) in prods.iter().filter(|t| t.0 == l) {
-                let _ = a;
-                ids.push(format!("{}-{}", l, c)); ids.push(format!("{}-{}", l, b)); ids.push(format!("{}-{}-{}", l, b, c));
+            for (_, b, c) in prods.iter().filter(|t| t.0 == l) {
+                let mut s = l.to_string();
+                if !b.is_empty() { s.push('-'); s.push_str(b); }
+                if !c.is_empty() { s.push('-'); s.push_str(c); }
+                ids.push(s);
             }
-            for d in locale_dirs().iter().filter(|d| d.split(|c| c == '-' || c == '_').next() == Some(l)) { ids.push(d.replace('_', "-")); }
+            let victims: Vec<String> = locale_dirs().iter().filter(|d| d.split(|c| c == '-' || c == '_').next() == Some(l)).map(|d| d.replace('_', "-")).collect();
+            ids.extend(victims.iter().cloned());
             ids.sort(); ids.dedup();
-            let cap = if thorough { 60 } else { 24 };
-            if ids.len() > cap { let step = ids.len() / cap + 1; ids = ids.iter().step_by(step).cloned().collect(); }
-            for x in ids.iter() { for y in ids.iter() {
+            // script-less identifiers are all kept (the refinement path is taken only without a script); the others are sampled
+            let (mut keep, rest): (Vec<String>, Vec<String>) = ids.iter().cloned().partition(|s| s.split('-').skip(1).all(|p| p.len() != 4));
+            let cap = if thorough { 120 } else { 30 };
+            let step = rest.len() / cap + 1;
+            keep.extend(rest.into_iter().step_by(step));
+            let ids = keep;
+            for x in ids.iter() { for y in victims.iter() {
                 if x == y { continue; }
-                out.case(&seq_op, &[x.as_bytes(), y.as_bytes()], || { let _ = direction(x.as_bytes()); direction(y.as_bytes()) });
+                out.case(&seq_op, &[x.as_bytes(), y.as_bytes()], || seq_direction(x.as_bytes(), y.as_bytes()));
+            } }
+            // and a sample of arbitrary ordered pairs of the language
+            let few: Vec<&String> = ids.iter().step_by((ids.len() / 12).max(1)).collect();
+            for x in few.iter() { for y in few.iter() {
+                if x == y { continue; }
+                out.case(&seq_op, &[x.as_bytes(), y.as_bytes()], || seq_direction(x.as_bytes(), y.as_bytes()));
             } }
         }
     }
